@@ -337,11 +337,11 @@ def report(ctx: click.Context, tjp_file: Optional[str], output_csv: bool, output
         if not success:
             raise ReportGenerationError(error_msg or "Report generation failed")
 
-        # Find ALL generated files in temp directory
-        if output_format == "json":
-            output_files = list(temp_output_dir.glob("*.json"))
-        else:
-            output_files = list(temp_output_dir.glob("*.csv"))
+        # The report to print is the auto-generated id/start/end report: pick it by its name.
+        # (Taking the first entry of a directory listing printed one of the project's own
+        # reports - which one depended on the file system's listing order.)
+        auto_output = temp_output_dir / f"{auto_report_id}.{output_format}"
+        output_files = [auto_output] if auto_output.exists() else []
 
         if verbose:
             logger.debug("Found %d output files: %s", len(output_files), [f.name for f in output_files])
